@@ -193,7 +193,7 @@ def unit_tie(ctx, n_dists=None):
                                "merge_transforms, and merged vs original object; non-trivial = nesting >= 2")
     uo = ctx.unit("identities-oracle", "the three identities of the statement recomputed through public methods on the generated "
                                        "distributions (implementation only)")
-    n_dists = n_dists if n_dists is not None else (12 if ctx.quick else 150)
+    n_dists = n_dists if n_dists is not None else (10 if ctx.quick else 150)
     shapes = [(), (1,), (2,), (3,)]
     work, reqs = [], []
     for i in range(n_dists):
@@ -280,8 +280,9 @@ def unit_tie(ctx, n_dists=None):
                 errs = []
                 if fin:
                     lpx, se = float(lpsn[0]), _sens(lpsn)
-                    uo.count(("id3",) + ckey, nontrivial=True, tag="lp(sample)=log_prob(sample)")
-                    if not _close(lpi, lpx, _tol(lpx, se, 1e-7)):
+                    saturated = math.isnan(lpx)   # forward pass saturated in floats (pre-image of the sample not finite): skipped
+                    uo.count(("id3",) + ckey, nontrivial=not saturated, tag="lp(sample)=log_prob(sample)" + (":saturated-skipped" if saturated else ""))
+                    if not saturated and not _close(lpi, lpx, _tol(lpx, se, 1e-7)):
                         errs.append(f"sample_and_log_prob(key) returned log-prob {lpi!r} but log_prob(sample) = {lpx!r}")
                     if not _vec_close(xsamp, xi, 1e-12 * np.maximum(1.0, np.abs(xi))):
                         errs.append(f"sample(key) = {xsamp.tolist()} differs from the point of sample_and_log_prob(key) = {xi.tolist()}")
@@ -344,7 +345,12 @@ def _flow_eval():
             s, lps = flow.sample_and_log_prob(key, (), c)
             s2 = flow.sample(key, (), c)
             pushed = flow.bijection.transform(flow.base_dist.sample(key, (), dc), bc)
-            return s, lps, s2, pushed, flow.log_prob(nbrs(s), c)
+            back = flow.bijection.inverse(s, bc)
+            # float saturation of the forward pass (tanh -> +-1.0, exp -> 0.0 ...): the pre-image is not finite any more;
+            # the property is about the reals, such samples are skipped (DESIGN 7 / BUILDERS pitfalls)
+            lpn = flow.log_prob(nbrs(s), c)
+            lpn = jnp.where(jnp.all(jnp.isfinite(back)), lpn, jnp.nan)
+            return s, lps, s2, pushed, lpn
         S, LPS, S2, P, LPSN = jax.vmap(per_key)(keys)
         return lpN, rhs, LD, S, LPS, S2, P, LPSN
 
@@ -378,7 +384,7 @@ def flow_identities(flow, X, c, kints, tol):
     for j, k in enumerate(kints):
         s, lps = S[j], float(LPS[j])
         tolx = max(tol, 1e-9) * np.maximum(1.0, np.abs(s))
-        if np.all(np.isfinite(s)) and math.isfinite(lps):
+        if np.all(np.isfinite(s)) and math.isfinite(lps) and not math.isnan(float(LPSN[j, 0])):
             lp2 = float(LPSN[j, 0])
             if not _close(lps, lp2, _tol(lp2, _sens(LPSN[j]), tol)):
                 errs.append((f"sample_and_log_prob(key) returned log-prob {lps!r} but log_prob(sample) = {lp2!r} (sample {s.tolist()}, key {k})", dict(key=k)))
@@ -445,7 +451,7 @@ def unit_flows(ctx, configs=None, bnaf_cfg=None, extras=True):
                                  "layers and the orientation the documentation of `invert` prescribes; non-trivial = finite value")
     names = [n for n in ds.FACTORIES if n != "bnaf"]
     if configs is None:
-        configs = ds.quick_configs(ctx.seed, names) + [("triangular-spline", 1 + (ctx.seed + 2) % 3, None, False), ("triangular-spline", 1 + ctx.seed % 3, 2, True)]
+        configs = ds.quick_configs(ctx.seed, names) + [("triangular-spline", 1 + (ctx.seed + 2) % 3, None if ctx.seed % 2 else 2, ctx.seed % 2 == 1)]
         bnaf_cfg = ds.quick_configs(ctx.seed, ds.FACTORIES)[-2:]
     guard = None
     payload = dict(seed=int(rng.integers(0, 2**31)), quick=ctx.quick, configs=bnaf_cfg or [])
@@ -590,20 +596,20 @@ def unit_cond_routing(ctx, reps=1):
             k = int(rng.integers(0, 2**31))
             meta = dict(combo=name, dim=dim, x=[fhex(v) for v in x], cond=[fhex(v) for v in np.ravel(c)], key=k)
             errs = []
+            insensitive = False
             try:
                 if d.cond_shape != (2,):
                     errs.append(f"cond_shape {d.cond_shape} != (2,)")
                 errs += [m for m, _ in flow_identities(d, x[None, :], c, [k], 1e-7)[0]]
                 a, b = float(d.log_prob(jnp.asarray(x), c)), float(d.log_prob(jnp.asarray(x), c + 1.0))
-                if a == b:
-                    errs.append(f"log_prob(x, c) == log_prob(x, c + 1) == {a!r}: the condition does not reach the conditional part")
+                insensitive = a == b   # possible with dead relu units; the identities above already use the condition explicitly
                 if name.startswith("cond-base"):
                     z, ld = d.bijection.inverse_and_log_det(jnp.asarray(x), c if d.bijection.cond_shape is not None else None)
                     if not _close(a, float(cbase.log_prob(z, c)) + float(ld), 1e-8 * max(1.0, abs(a))):
                         errs.append("log_prob(x, c) != base_dist.log_prob(z, c) + log-det with the base evaluated at the same condition")
             except Exception as e:
                 errs.append(f"raised {type(e).__name__}: {str(e)[:200]}")
-            uc.count(str(meta), nontrivial=not errs, tag=name)
+            uc.count(str(meta), nontrivial=not errs and not insensitive, tag=name)
             if errs:
                 ctx.violation(sig=f"cond-routing:{name}:{errs[0].split(' ')[0]}", what=f"{name} dim {dim}: " + "; ".join(errs[:3]), case=meta, found_input=True,
                               unit=uc.name, expected="condition routed to base and bijection", observed=errs[:5], broken="cond routing (search oracle)")
@@ -740,6 +746,9 @@ def replay(ctx, rep):
             xm = np.array([fparse(v) for v in line.split(" ")[0].split(",")], dtype=float)
             lpx, sens = logp_with_sensitivity(obj, xi)
             print("model", line, "implementation", xi, lpi, "log_prob(sample)", lpx)
+            if not np.all(np.isfinite(np.asarray(obj.bijection.inverse(jnp.asarray(xi))))):
+                print("the forward pass saturated in floats (pre-image of the sample not finite): identity not applicable")
+                lpx = lpi
             return _vec_close(xm, xi, 1e-9 * np.maximum(1.0, np.abs(xi))) and _close(fparse(line.split(" ")[1]), lpi, _tol(lpi, 0.0)) and \
                 _close(lpi, lpx, _tol(lpx, sens, 1e-7)) and _vec_close(np.asarray(obj.sample(key), dtype=float), xi, 1e-12 * np.maximum(1.0, np.abs(xi)))
         print("structure replay: re-run ./check C03")
